@@ -15,6 +15,19 @@ fn col_idx(names: &[String], n: &str) -> Option<usize> {
 
 impl Runner {
     /// Stable row ids: unique, stable per logical row, never re-issued, resolvable.
+    /// Row-identity bookkeeping on an older version (versions created inside a concurrent round
+    /// are otherwise never looked at, so identities handed out there would be unknown).
+    pub async fn o_rowids_version(&mut self, v: u64, what: &str) {
+        if !self.ctx.stable_row_ids || v >= self.ds.version().version {
+            return;
+        }
+        if let Ok(old) = self.ds.checkout_version(v).await {
+            let cur = std::mem::replace(&mut self.ds, old);
+            self.o_rowids(what).await;
+            self.ds = cur;
+        }
+    }
+
     pub async fn o_rowids(&mut self, last_op: &str) {
         if !self.ctx.stable_row_ids {
             return;
